@@ -64,4 +64,15 @@ def toSV (c : Chan) : Gen.FnSimpleState.EnforcementState Nat Nat :=
 /-- the content rules `validate_commitment_tx` as the model sees them: one Boolean (`policyOk`), some tag on refusal -/
 def contentRules (pk : Bool) (tag : String) : Rs.M Unit := if pk then .ok () else .error (.err tag)
 
+theorem cls_bind_errPolicy {α β : Type} (x : Rs.M α) (k : α → Rs.M β) (h : cls x = .errPolicy) :
+    cls (x >>= k) = .errPolicy := by
+  cases x with
+  | ok a => simp [cls] at h
+  | error e => cases e <;> simp_all [cls, bind, Except.bind]
+
+theorem cls_ok_iff {α : Type} (x : Rs.M α) : cls x = .ok ↔ ∃ a, x = .ok a := by
+  cases x with
+  | ok a => simp [cls]
+  | error e => cases e <;> simp [cls]
+
 end VlsModel.Lemmas.EnforcementFn
